@@ -54,6 +54,7 @@ type Frame struct {
 	defers []*Val
 	// loop bookkeeping
 	loopOrd map[*ssa.BasicBlock]int
+	loopEntry map[*ssa.BasicBlock]*State
 	// named result allocs etc.
 }
 
